@@ -1,9 +1,9 @@
 CONSTANTS
   NW = 2
-  MaxLive = 3
-  MaxStops = 2
-  Timeout = 3
-  MaxBlocks = 0
+  MaxLive = 1
+  MaxStops = 1
+  Timeout = 2
+  MaxBlocks = 1
   ForcedAwaitsWorkers = FALSE
   GracefulSkipsAwait = FALSE
   CompleteBeforeJoin = FALSE
